@@ -324,6 +324,25 @@ Proof.
     Z.div_mod_to_equations; lia.
 Qed.
 
+(* the 24-bit path is the 3-byte little-endian two's complement decoder, for every
+   3-byte string (sign extension through the 32-bit decoder, then the shift) *)
+Theorem unpack_24_signext (bs : list Z) :
+  length bs = 3%nat -> Forall (fun b => 0 <= b < 256) bs ->
+  unpack 24 bs = dec_int 3 Little bs.
+Proof.
+  intros Hl Hb. pose proof (le_val_range bs Hb) as Hu. rewrite Hl in Hu.
+  change (256 ^ Z.of_nat 3) with 16777216 in Hu.
+  unfold unpack, dec_int.
+  change (24 =? 8) with false. change (24 =? 16) with false.
+  change (24 =? 24) with true. cbv iota. cbn [le_val ord_bytes].
+  unfold to_signed.
+  change (2 ^ (bits_of 4 - 1)) with 2147483648. change (2 ^ bits_of 4) with 4294967296.
+  change (2 ^ (bits_of 3 - 1)) with 8388608. change (2 ^ bits_of 3) with 16777216.
+  set (u := le_val bs) in *.
+  destruct (Z.ltb_spec (0 + 256 * u) 2147483648); destruct (Z.ltb_spec u 8388608);
+    try lia; Z.div_mod_to_equations; lia.
+Qed.
+
 Definition wav_sample_bytes (bits v : Z) : list Z :=
   le_bytes (Z.to_nat (bits / 8)) (v mod 2 ^ bits).
 
@@ -637,6 +656,10 @@ Proof.
   destruct (strict && f32_overflows v); split; intros H; try reflexivity; discriminate H.
 Qed.
 
+Lemma enc_f64_some (o : order) (v : Z) (p : list Z) :
+  enc_f64 o v = Some p -> p = ord_bytes o (le_bytes 8 v).
+Proof. unfold enc_f64. intros H. congruence. Qed.
+
 (* one sample: what was packed is what unpacking returns *)
 Lemma sample_roundtrip (strict : bool) (f : dfmt) (o : order) (v : Z) (p : list Z) :
   (f = Fd -> 0 <= v < 2 ^ 64) ->
@@ -652,7 +675,7 @@ Proof.
     split; [|reflexivity].
     change (256 ^ Z.of_nat 4) with (2 ^ 32).
     apply Z.mod_small. apply bits_of_b32_range.
-  - unfold enc_f64 in H. injection H as <-. unfold dec_fbits.
+  - apply enc_f64_some in H. subst p. unfold dec_fbits.
     rewrite ord_bytes_invol, ord_bytes_length, le_bytes_length, le_val_le_bytes.
     split; [|reflexivity].
     change (256 ^ Z.of_nat 8) with (2 ^ 64).
@@ -668,7 +691,7 @@ Proof.
   - apply (int_roundtrip 4 o v p); [lia|exact H].
   - apply enc_f32_some in H. subst p.
     rewrite ord_bytes_length. apply le_bytes_length.
-  - unfold enc_f64 in H. injection H as <-.
+  - apply enc_f64_some in H. subst p.
     rewrite ord_bytes_length. apply le_bytes_length.
 Qed.
 
@@ -758,8 +781,8 @@ Proof.
   split.
   - destruct (pack_blocks_pieces strict f o _ _ H) as [ps [Hps Hc]].
     rewrite (blocks_concat_padded size pad xs Hs) in Hps.
-    destruct (pieces_decode strict f o _ ps) with (2 := Hps) as [H1 H2].
-    { intros Hf. apply padded_members. exact (Hd Hf). }
+    destruct (pieces_decode strict f o (padded size pad xs) ps) as [H1 H2];
+      [intros Hf; apply padded_members; exact (Hd Hf)|exact Hps|].
     unfold unpack_all. rewrite Hc, frames_concat by (try assumption; apply width_pos).
     exact H1.
   - pose proof (blocks_all_length_size Z size size pad xs Hs Hs) as Hlen.
